@@ -270,3 +270,11 @@ chk("C05", TV,
     "solver counterexample is confirmed by the kernel's rejection",
     BASE_NOTE + " The solver side covers necessary conditions only; acceptance is the kernel's verdict where available.",
     "symbolic execution of the emitted eBPF bytes (z3) for the verifier's necessary conditions, cross-checked with the kernel verifier", "A:8/C05")
+
+chk("C02", TV,
+    "statements mixing fixed-point operands (x variables, x register view, decimal constants) and integer operands, all six "
+    "arithmetic operators, reflected constant forms, conversions, augmented assignments, depth-2 trees with exact inner nodes and "
+    "mixed comparisons are compiled by the real generator; the emitted bytes run symbolically for all operand values in "
+    "[-2^26, 2^26) and the stored result is compared with the exact rational result dropped to the destination's representation",
+    BASE_NOTE + " Quotients with a negative operand are a recorded finding (unsigned division, as in C01) and outside the claim.",
+    "symbolic execution of the emitted eBPF bytes (z3 bit-vectors, UF abstraction of mul/div with proved lemmas, cvc5 fallback) against an exact rational reference", "A:8/C02")
